@@ -270,6 +270,8 @@ def rule_check_options(run, F, cfg):
     run.touched(f)
     n = 0
     bad = []
+    bad_ws = []
+    bad_src = []
     H = "filters::network::NetworkFilterMaskHelper::"
     for p in enumerate_paths(f):
         if p.end != "return":
@@ -296,6 +298,14 @@ def rule_check_options(run, F, cfg):
             problems.append("http without for_http")
         if g("arg:request.is_http") is None:
             problems.append("is_http undecided")
+        # ws / wss URL (neither http nor https): a rule restricted to exactly one of http / https (`|http://`,
+        # `|https://`) names a different scheme and must not apply; unrestricted rules and `|ws://` rules may
+        if g("arg:request.is_http") == 0 and g("arg:request.is_https") == 0:
+            ne = g("(" + H + "for_http(arg:mask) Ne " + H + "for_https(arg:mask))")
+            eq = g("(" + H + "for_http(arg:mask) Eq " + H + "for_https(arg:mask))")
+            both = (g(H + "for_http(arg:mask)"), g(H + "for_https(arg:mask)"))
+            if not (ne == 0 or eq == 1 or (both[0] is not None and both[0] == both[1])):
+                bad_ws.append(val)
         tp = g("arg:request.is_third_party")
         fp_ok = g(H + "first_party(arg:mask)")
         tp_ok = g(H + "third_party(arg:mask)")
@@ -308,6 +318,8 @@ def rule_check_options(run, F, cfg):
         inc = g("discr(arg:opt_domains)")
         if inc is None:
             problems.append("include list not inspected")
+        elif inc == 1 and g("discr(arg:request.source_hostname_hashes)") != 1:
+            bad_src.append(val)
         elif inc == 1 and g("discr(arg:request.source_hostname_hashes)") == 1:
             # Some(domains) and a source host: the `all(|h| !bin_lookup(included, h))` test must have failed
             looked = [(e, v) for e, v in d.items() if re.search(r"Iterator>::all\(core::slice::iter\(arg:request\.source_hostname_hashes", e)]
@@ -333,6 +345,16 @@ def rule_check_options(run, F, cfg):
            f"every path of check_options that can return true ({n} paths) has decided: !badfilter, "
            f"check_cpt_allowed, https => for_https, http => for_http, third-party ? third_party : first_party, and "
            f"inspected both domain lists; problems: {bad[:2]}", site=f.loc(0), config=cfg)
+    run.ob("C03.3.check_options-table", "websocket-scheme", not bad_ws,
+           "on every path that can return true for a ws / wss request (neither is_http nor is_https) the rule is not "
+           "restricted to exactly one of http / https: for_http() == for_https() has been established "
+           f"({len(bad_ws)} offending paths). `|https://$websocket` must not match wss:// — the index files it under the "
+           "token `https`, so the engine and the rule would also disagree (C01)", site=f.loc(0), config=cfg)
+    run.ob("C03.3.check_options-table", "initiator-required", not bad_src,
+           "a rule with a positive `$domain=` list returns true only for a request whose initiator is known "
+           f"(source_hostname_hashes is Some): {len(bad_src)} offending paths. Such a rule may be indexed under its "
+           "domain's hash only (C01.1 single-domain / per-domain dispatch), so the engine never finds it for a "
+           "source-less request; evaluated alone it used to match", site=f.loc(0), config=cfg)
     # the domain lookups: include uses bin_lookup on opt_domains, exclude on opt_not_domains; exclusion => false
     cl = F.closures_of(f.name)
     look = []
@@ -399,6 +421,12 @@ def rule_unsupported(run, F, cfg):
     ok = bool(probes) and all(has_cond(dominating_conditions(f, b), r"arg:request\.is_supported$", 1) for b, _ in probes)
     run.ob("C03.4.unsupported-schemes", "no-probe-when-unsupported", ok,
            "check_parameterised probes no list unless request.is_supported (scheme table: C12.2)", site=f.loc(0), config=cfg)
+    g2 = F.fn("blocker::Blocker::get_csp_directives")
+    probes2 = g2.calls(r"^network_filter_list::NetworkFilterList::check(_all)?$")
+    ok2 = bool(probes2) and all(has_cond(dominating_conditions(g2, b), r"arg:request\.is_supported$", 1) for b, _ in probes2)
+    run.ob("C03.4.unsupported-schemes", "no-csp-probe-when-unsupported", ok2,
+           "get_csp_directives probes the csp list only when request.is_supported (an ftp:// document gets no policy)",
+           site=g2.loc(0), config=cfg)
 
 
 def rule_domains(run, F, cfg):
